@@ -6,21 +6,21 @@ namespace Dump
 
 def mkey (k : MKey) : String := s!"{k.size}:v{k.pay}"
 
-def selem (e : SElem) : String := s!"S({e.size},{mkey e.key},{elem e.val})"
+def selemR (re : Elem → String) (e : SElem) : String := s!"S({e.size},{mkey e.key},{re e.val})"
 
 /-- `(dump of the elements, dumps of the external collision-group slabs inside, in order)` -/
-def melems : (r : Nat) → MElems r → String × List (SlabID × String)
+def melemsR (re : Elem → String) : (r : Nat) → MElems r → String × List (SlabID × String)
   | 0, (se : SingleElems) =>
-    (s!"L({se.level},{se.size})[" ++ joinWith " " (se.elems.map selem) ++ "]", [])
+    (s!"L({se.level},{se.size})[" ++ joinWith " " (se.elems.map (selemR re)) ++ "]", [])
   | r + 1, (he : HkeyElems (MElems r)) =>
     let parts := he.elems.map (fun el =>
       match el with
-      | .single x => (selem x, ([] : List (SlabID × String)))
+      | .single x => (selemR re x, ([] : List (SlabID × String)))
       | .inl g =>
-        let (s, ext) := melems r g
+        let (s, ext) := melemsR re r g
         (s!"I({Gen.inlineCollisionGroupPrefixSize + (MElems.ops r).size g},{s})", ext)
       | .ext id sz slab =>
-        let (s, ext) := melems r slab.elems
+        let (s, ext) := melemsR re r slab.elems
         (s!"X({sz},{id.render})",
          (id, s!"d({slab.hdr.id.render},0.0,{slab.hdr.size},{slab.hdr.firstKey},0,1,1)" ++ s) :: ext))
     (s!"H({he.level},{he.size})" ++ "{" ++ joinWith "," (he.hkeys.map toString) ++ "}[" ++
@@ -28,8 +28,8 @@ def melems : (r : Nat) → MElems r → String × List (SlabID × String)
 
 def mextra {r : Nat} (m : OMap r) : String := s!"T({m.ty},{m.count},{m.seed})"
 
-def mdataSlab {r : Nat} (m : OMap r) (s : MDataSlab r) : String × List (SlabID × String) :=
-  let (es, ext) := melems (r + 1) s.elems
+def mdataSlabR {r : Nat} (re : Elem → String) (m : OMap r) (s : MDataSlab r) : String × List (SlabID × String) :=
+  let (es, ext) := melemsR re (r + 1) s.elems
   (s!"d({s.hdr.id.render},{s.next.render},{s.hdr.size},{s.hdr.firstKey},{bool01 s.inlined},0,0)" ++
     (if s.root then mextra m else "") ++ es, ext)
 
@@ -40,9 +40,11 @@ def mmetaSlab {r : Nat} {α : Type} (m : OMap r) (x : MMetaSlab α) : String :=
   "{" ++ joinWith ";" (x.childHdrs.map mhdr3) ++ "}"
 
 /-- every slab with its ID, in pre-order (external collision-group slabs right after their data slab) -/
-def mtree {r : Nat} (m : OMap r) : (d : Nat) → MTree r d → List (SlabID × String)
-  | 0, (s : MDataSlab r) => let (str, ext) := mdataSlab m s; (s.hdr.id, str) :: ext
-  | d + 1, (x : MMetaSlab (MTree r d)) => (x.hdr.id, mmetaSlab m x) :: x.children.flatMap (mtree m d)
+def mtreeR {r : Nat} (re : Elem → String) (m : OMap r) : (d : Nat) → MTree r d → List (SlabID × String)
+  | 0, (s : MDataSlab r) => let (str, ext) := mdataSlabR re m s; (s.hdr.id, str) :: ext
+  | d + 1, (x : MMetaSlab (MTree r d)) => (x.hdr.id, mmetaSlab m x) :: x.children.flatMap (mtreeR re m d)
+
+def mtree {r : Nat} (m : OMap r) (d : Nat) (t : MTree r d) : List (SlabID × String) := mtreeR elem m d t
 
 def merr : MErr → String
   | .keyNotFound => "KeyNotFound:User"
